@@ -423,7 +423,7 @@ def drv_unary(c, ctx, col):
     col.sample({"spec": spec, "variable_names": names, "adjacent_operators": adjacent})
 
 
-LITERALS = ["0", "1", "2", "3", "10", "0.5", ".5", "2.", "1.0", "0.25", "007", "1.50"]
+LITERALS = ["0", "1", "2", "3", "10", "0.5", ".5", "2.", "1.0", "0.25", "100", "1.50"]
 LIT_TEMPLATES = [
     ["@", "*", "x"], ["x", "*", "@"], ["x", "/", "@"], ["x", "+", "@"], ["x", "=", "@"], ["@", "=", "x"],
     ["@", "*", "(", "x", "-", "@", ")"], ["x", "/", "@", "+", "y", "*", "@", "=", "@"], ["@"], ["@", "/", "@", "*", "y"],
